@@ -1,4 +1,4 @@
-//@ unit u4_digests props C06
+//@ unit u4_digests props C06 C02
 // Unit U4: digests and signatures of synchronised rows (node.rs, edge.rs).
 // Prelude: stubs of external crates (assumed contracts listed in DESIGN.md section 7),
 // spec encodings (the wire format, written from the property's point of view: which
@@ -88,12 +88,7 @@ pub fn std_i64_to_le_bytes(x: i64) -> (r: [u8; 8]) ensures r@ == le8(x) { x.to_l
 // ---------------------------------------------------------------- keys (assumed: ed25519 as mathematics)
 /// sig_ok(vk, msg, sig): `sig` verifies for message `msg` under the exported verifying key `vk`
 pub uninterp spec fn sig_ok(vk: Seq<u8>, msg: Seq<u8>, sig: Seq<u8>) -> bool;
-pub trait SigningKey {
-    spec fn spec_vk(&self) -> Seq<u8>;
-    spec fn spec_sign(&self, msg: Seq<u8>) -> Seq<u8>;
-    fn export_verifying_key(&self) -> (r: Vec<u8>) ensures r@ == self.spec_vk();
-    fn sign(&self, message: &[u8]) -> (r: Vec<u8>) ensures r@ == self.spec_sign(message@);
-}
+//@ include common/keys.rs
 pub struct ImportedKey { k: Vec<u8> }
 impl ImportedKey {
     pub uninterp spec fn key(&self) -> Seq<u8>;
